@@ -73,6 +73,26 @@ let () =
           (z_of_string count) (bytes_of_hex u) in
       Printf.printf "U %s %s\n" id
         (String.concat ";" (List.map (fun e -> String.concat "," (List.map hex_of_z e)) r))
+    | ["HF"; id; "edwards25519"; scalar; count; b; s; dst; msg; tbl] ->
+      let r = try
+          (match ed_h2f (table_fn tbl) (z_of_string b) (z_of_string s) (scalar = "1")
+                   (z_of_string count) (bytes_of_hex dst) (bytes_of_hex msg) with
+           | None -> "PANIC"
+           | Some us -> String.concat "," (List.map hex_of_z us))
+        with Miss -> "MISS" in
+      Printf.printf "HF %s %s\n" id r
+    | ["HC"; id; "edwards25519"; b; s; dst; msg; tbl] ->
+      let h = table_fn tbl and bb = z_of_string b and ss = z_of_string s in
+      let r = try
+          (match ed_h2f h bb ss false (z_of_int 2) (bytes_of_hex dst) (bytes_of_hex msg),
+                 ed_hash_to_curve h bb ss (bytes_of_hex dst) (bytes_of_hex msg) with
+           | Some us, Some p ->
+             let qs = List.map (fun u -> show_pt (ed_to_affine (ed_map u))) us in
+             String.concat ";" [String.concat "," (List.map hex_of_z us); String.concat ";" qs; show_pt p;
+                                string_of_bool (ed_on_curve p); string_of_bool (ed_in_subgroup p)]
+           | _ -> "PANIC")
+        with Miss -> "MISS" in
+      Printf.printf "HC %s %s\n" id r
     | ["HF"; id; suite; scalar; count; b; s; dst; msg; tbl] ->
       let r = try
           (match ws_h2f (table_fn tbl) (z_of_string b) (z_of_string s) (suite_of suite) (scalar = "1")
